@@ -83,6 +83,24 @@ theorem source_time_partition (cfg : SrcCfg) (acts : List SrcState.Act)
   have h := SrcState.run_sc acts hok (SrcState.init_sc cfg)
   exact ⟨h.len, h.ok.2⟩
 
+/-- Source, the set-up period (node_setup_time is an inherited attribute, assigned before the run): the first activation stamps the clock and
+    waits exactly the set-up time; the activation that ends the wait charges exactly that time to SETUP_STATE and nothing to the other states -/
+theorem source_setup_is_charged (cfg : SrcCfg) (t : Nat) (a a' : Ans) (d : Nat) (ds : List Nat)
+    (hpol : ∀ k, cfg.pol = .const k → ¬ (k < 0 ∨ k ≥ cfg.nout)) (hd : a'.draws = d :: ds) :
+    let s1 := ((SrcState.init cfg).behaviour t a)
+    let s2 := (s1.1.behaviour (t + cfg.setup) a')
+    s1.2 = [.wait cfg.setup] ∧ s2.1.clock.tot = [cfg.setup, 0, 0] ∧ s2.1.clock.cur = 1 := by
+  cases hp : cfg.pol with
+  | const k =>
+    have := hpol k hp
+    simp [SrcState.behaviour, SrcState.init, hp, this, SrcState.loopTop, hd, StateClock.update, addAt]
+  | rr => simp [SrcState.behaviour, SrcState.init, hp, SrcState.loopTop, hd, StateClock.update, addAt]
+  | rnd => simp [SrcState.behaviour, SrcState.init, hp, SrcState.loopTop, hd, StateClock.update, addAt]
+  | user => simp [SrcState.behaviour, SrcState.init, hp, SrcState.loopTop, hd, StateClock.update, addAt]
+  | fa => simp [SrcState.behaviour, SrcState.init, hp, SrcState.loopTop, hd, StateClock.update, addAt]
+
+example : (((SrcState.init { setup := 3 }).behaviour 0 {}).1.behaviour 3 { draws := [2] }).1.clock.tot = [3, 0, 0] := by decide +kernel
+
 /-! ### Machine: the partition over all activation sequences -/
 
 /-- after ANY activation sequence: once the set-up period is over (a last state change is recorded) both state groups add up to the time
